@@ -53,6 +53,18 @@ func c05wGen(rt *rapid.T) wProg {
 			p.Ops = append(p.Ops[:at], append(ins, p.Ops[at:]...)...)
 		}
 	}
+	// a P2P topic with user 3 (nobody else talks to user 3) created with a default access whose auth part is empty, junk or valid
+	if gPct(rt, 25) {
+		creator := gInt(rt, 1, 2, "p2pcreator")
+		for k := 1; k < len(p.Sess); k++ {
+			if p.Sess[k] == creator {
+				at := gInt(rt, 1, len(p.Ops), "at4")
+				ins := []wOp{{K: "sub", S: k, T: "p3", H: map[string]any{"defacs": map[string]any{"auth": gPick(rt, []string{"", "", "JRWX", "J?", "JRWP", "N"}, "p2pauth"), "anon": gPick(rt, []string{"N", "", "JR"}, "p2panon")}}}}
+				p.Ops = append(p.Ops[:at], append(ins, p.Ops[at:]...)...)
+				break
+			}
+		}
+	}
 	// default access changed one side at a time: the side left out (or sent empty) stays as it was
 	if gPct(rt, 45) {
 		at := gInt(rt, 1, len(p.Ops), "at2")
@@ -91,8 +103,19 @@ func c05wDefacs(st *mem.State, route string) (types.DefaultAccess, bool) {
 	return types.DefaultAccess{}, false
 }
 
+func (o *c05wObs) Before(w *wWorld, op *wOp) {
+	o.permObs.Before(w, op)
+	o.preNames = map[int][]string{}
+	for slot, ss := range w.sess {
+		if ss != nil && !ss.isClosed() {
+			o.preNames[slot] = ss.subNames()
+		}
+	}
+}
+
 type c05wObs struct {
 	*permObs
+	preNames map[int][]string // topics each session was attached to before the step
 	judged, deltas, absolutes int
 	known func(*kit.Viol) bool
 }
@@ -130,6 +153,76 @@ func (o *c05wObs) After(w *wWorld, st *wStep) *kit.Viol {
 		return nil
 	}
 	post := mem.A.Snapshot()
+	// Wherever the server spells out all three of want, given and mode, mode is their intersection.
+	for sess, frames := range st.Frames {
+		for _, f := range frames {
+			var all []*MsgAccessMode
+			switch {
+			case f.Ctrl != nil:
+				if m, ok := f.Ctrl.Params.(map[string]any); ok {
+					if a, ok := m["acs"].(map[string]any); ok {
+						w3, _ := a["want"].(string)
+						g3, _ := a["given"].(string)
+						m3, _ := a["mode"].(string)
+						all = append(all, &MsgAccessMode{Want: w3, Given: g3, Mode: m3})
+					}
+				}
+			case f.Meta != nil:
+				if f.Meta.Desc != nil && f.Meta.Desc.Acs != nil {
+					all = append(all, f.Meta.Desc.Acs)
+				}
+				for i := range f.Meta.Sub {
+					if f.Meta.Sub[i].Acs.Mode != "" {
+						all = append(all, &f.Meta.Sub[i].Acs)
+					}
+				}
+			}
+			for _, a := range all {
+				if a.Want == "" || a.Given == "" || a.Mode == "" {
+					continue
+				}
+				want, e1 := types.ParseAcs([]byte(a.Want))
+				given, e2 := types.ParseAcs([]byte(a.Given))
+				mode, e3 := types.ParseAcs([]byte(a.Mode))
+				if e1 != nil || e2 != nil || e3 != nil {
+					return kit.V("acs-text-unparsable", "session %d received %s: a permission set which does not parse", sess, wJSON(f))
+				}
+				o.features["acs-triple"] = true
+				if mode&types.ModeBitmask != want&given&types.ModeBitmask {
+					return kit.V("mode-not-intersection", "session %d received %s after %s: mode %q is not the intersection of want %q and given %q", sess, wJSON(f), st.Req, a.Mode, a.Want, a.Given)
+				}
+			}
+		}
+	}
+	// A P2P topic created with set.desc.defacs whose auth part is empty or unparsable: "no change" /
+	// "rejected and target unchanged" - the other participant is granted the initiator's own default, as without it.
+	if dv, _ := st.Op.H["defacs"].(map[string]any); st.Op.K == "sub" && dv != nil && !st.Skipped && st.ok() && st.User >= 0 && strings.HasPrefix(st.Route, "p2p") {
+		authText, _ := dv["auth"].(string)
+		if _, err := types.ParseAcs([]byte(authText)); authText == "" || err != nil {
+			self := w.users[st.User].uid
+			peerHad := false
+			for _, r := range o.pre.Subs {
+				if r.Topic == st.Route && r.User != self {
+					peerHad = true
+				}
+			}
+			var dflt types.AccessMode
+			for _, u := range o.pre.Users {
+				if u.ID == self {
+					dflt = u.Access.Auth
+				}
+			}
+			for _, r := range post.Subs {
+				if r.Topic == st.Route && r.User != self && !peerHad && r.DeletedAt == nil {
+					wantGiven := dflt&types.ModeCP2P | types.ModeApprove
+					o.features["p2p-defacs-no-change"] = true
+					if r.ModeGiven != wantGiven {
+						return kit.V("defacs-empty-or-invalid-changed-grant", "%s created the P2P topic with defacs.auth=%q (empty or unparsable: no change): the other participant was granted %v, the initiator's default gives %v", st.Req, authText, r.ModeGiven, wantGiven)
+					}
+				}
+			}
+		}
+	}
 	if side, _ := st.Op.H["side"].(string); st.Op.K == "set" && st.Op.A == "defacs" && side != "" && !st.Skipped {
 		before, ok1 := c05wDefacs(o.pre, st.Route)
 		after, ok2 := c05wDefacs(post, st.Route)
@@ -232,6 +325,18 @@ func (o *c05wObs) After(w *wWorld, st *wStep) *kit.Viol {
 			}
 			var route string
 			target := self
+			if p.Topic == "me" || p.Topic == "fnd" {
+				// a root session attached to somebody else's 'me' / 'fnd' is told about that user's subscriptions
+				foreign := false
+				for _, r := range append(w.sess[sess].subNames(), o.preNames[sess]...) {
+					if (strings.HasPrefix(r, "usr") && r != self.UserId()) || (strings.HasPrefix(r, "fnd") && r != self.FndName()) {
+						foreign = true
+					}
+				}
+				if foreign || st.Op.Obo > 0 && (st.Op.T == "me" || st.Op.T == "fnd") {
+					continue
+				}
+			}
 			if p.Topic == "me" {
 				route = w.routeOfName(p.Src, u)
 				if p.AcsTarget != "" {
